@@ -39,27 +39,6 @@ class _Ref(FuncRef):
 
 
 # =====================================================================================================
-# Engine shim (requested in notes/C13.requests.md): `del obj[key]` on a heap object has no protocol hook in
-# pyvc (models.del_item only knows dict values).  Classes of this file declare `delitem` and the shim below
-# dispatches to it; every other case goes to the original function unchanged.
-# =====================================================================================================
-if not getattr(_models.del_item, "_c13_shim", False):
-    _orig_del_item = _models.del_item
-
-    def _del_item(ex, st, recv, idx, node):
-        if isinstance(recv.ty, T.Ref):
-            cs = ex.class_of(recv.ty)
-            h = getattr(cs, "delitem", None)
-            if h is not None:
-                h(ex, st, recv, idx, node)
-                return recv
-        return _orig_del_item(ex, st, recv, idx, node)
-
-    _del_item._c13_shim = True
-    _models.del_item = _del_item
-
-
-# =====================================================================================================
 # Object vocabulary: glyphs with components, glyph sets (name -> glyph), the decomposing pen (trusted)
 # =====================================================================================================
 GLYPHS = Dict(STR, Ref("SXGlyph"))
@@ -122,7 +101,7 @@ def _gs_items(ex, st, self, args, kwargs, node):
 
 def _gs_delitem(ex, st, self, idx, node):
     d = _gs_glyphs(ex, st, self)
-    nv = _orig_del_item(ex, st, d, idx, node)
+    nv = _models.del_item(ex, st, d, idx, node)
     ex.write_field(st, self, "glyphs", nv, node)
 
 
@@ -164,11 +143,11 @@ _GS = cls(
     setitem=_gs_setitem,
     contains=_gs_contains,
     length=_gs_len,
+    delitem=_gs_delitem,
     methods={"keys": lambda ex, st, self, a, k, n: _gs_keyset(ex, st, self), "get": _gs_get, "items": _gs_items},
     views={"keyset": lambda o: set(o.keys()), "objs": lambda o: _IdMap(o), "comps": lambda o: {k: list(g.components) for k, g in o.items()}, "ncont": lambda o: {k: len(g) for k, g in o.items()}},
     notes="glyph set (dict / _GlyphSet): name -> glyph object; keys(), [], in, get, items, del, len (assumed dict protocol)",
 )
-_GS.delitem = _gs_delitem
 
 
 def _glyph_len(ex, st, self):
@@ -313,9 +292,14 @@ def _glyph_removeComponent(ex, st, self, args, kwargs, node):
     j = z3.Int(fresh_name("rmj"))
     st.assume(z3.And(idx >= 0, idx < n, s[idx] == cz))
     st.assume(z3.ForAll([j], z3.Implies(z3.And(j >= 0, j < idx), s[j] != cz)))
-    # (the same position, spelled out for the common case "c is the head": spares the solvers the detour through the quantifier)
-    idx = z3.If(z3.And(n > 0, s[0] == cz), z3.IntVal(0), idx)
-    res = _pos_seq(st, comps.ty, n - 1, lambda k: z3.If(k < idx, s[k], s[k + 1]), "removed")
+    # the list without that position; the common case "c is the head" (idx == 0) is spelled out without a case distinction per
+    # position, which spares the solvers the detour through idx
+    head = z3.And(n > 0, s[0] == cz)
+    res = fresh(comps.ty, "removed")
+    k = z3.Int(fresh_name("removed_k"))
+    st.assume(z3.Length(res) == n - 1)
+    st.assume(z3.Implies(head, z3.ForAll([k], z3.Implies(z3.And(k >= 0, k < n - 1), res[k] == s[k + 1]))))
+    st.assume(z3.Implies(z3.Not(head), z3.ForAll([k], z3.Implies(z3.And(k >= 0, k < n - 1), res[k] == z3.If(k < idx, s[k], s[k + 1])))))
     ex.write_field(st, self, "components", Val(comps.ty, res), node)
     return Val.const(None)
 
@@ -656,35 +640,13 @@ contract(
 
 
 # ---- SkipExportGlyphsFilter.__call__ -------------------------------------------------------------------------------------
-def _super_view(cname, base_contract, self_cls):
-    """`super()` inside a method of the receiver class: the same object, with method lookup starting at the base class.
-    `super().__call__(...)` is dispatched to the (verified) contract of the base-class method on the same receiver."""
-
-    def call(ex, st, view, args, kwargs, node):
-        real = Val(Ref(self_cls), view.term)
-        return ex.call_contract(CONTRACTS[base_contract], [real] + list(args), kwargs, st, node)
-
-    cls(cname, methods={"__call__": call}, notes=f"super() view of a {self_cls}: __call__ resolves to {base_contract}")
-
-    def model(ex, st, args, kwargs, node):
-        if args or kwargs or "self" not in st.env:
-            raise Unsupported("super(...) with arguments / outside a method", node)
-        return Val(Ref(cname), lift(st.env["self"]))
-
-    return model
-
-
-trusted("c13.super", "super() in a method of SkipExportGlyphsFilter: self, with attribute lookup starting after that class in the MRO (BaseFilter)")(
-    _super_view("SXSuper", "ufo2ft.filters.base:BaseFilter.__call__#SXFilter", "SXFilter")
-)
-
+# (`super().__call__(font, glyphSet)` resolves natively to the contract BaseFilter.__call__#SXFilter: MRO of the receiver's real class)
 contract(
     "ufo2ft.filters.skipExportGlyphs:SkipExportGlyphsFilter.__call__",
     name="SXFilter",
     props=["C13"],
     params={"self": Ref("SXFilter"), "font": Ref("SXFont"), "glyphSet": Ref("SXGlyphSet")},
     returns=Set(STR),
-    globals={"super": _Ref("c13.super")},
     ensures={
         # skipped glyphs are gone from the glyph set ...
         "gone": f"all(n not in glyphSet.keyset for n in {_SKIP})",
@@ -814,23 +776,6 @@ CONTRACTS["ufo2ft.filters.skipExportGlyphs:SkipExportGlyphsFilter.__call__#SXFil
 # =====================================================================================================
 # Interpolatable variant: SkipExportGlyphsIFilter
 # =====================================================================================================
-# Engine shim (notes/C13.requests.md): truthiness of Optional[object] (`interpolatedLayer or glyphSet`) is not defined in
-# pyvc (ops.truthy returns None for Ref inside Opt): "is not None and truth(object)".
-from pyvc.symex import Executor as _Executor  # noqa: E402
-
-if not getattr(_Executor.truth, "_c13_shim", False):
-    _orig_truth = _Executor.truth
-
-    def _truth(self, v, st, node=None):
-        if isinstance(v.ty, T.Opt) and isinstance(v.ty.inner, T.Ref) and not v.is_py:
-            so = v.ty.sort()
-            inner = _orig_truth(self, Val(v.ty.inner, so.val(v.term)), st, node)
-            return z3.And(so.is_some(v.term), z3.BoolVal(inner) if isinstance(inner, bool) else inner)
-        return _orig_truth(self, v, st, node)
-
-    _truth._c13_shim = True
-    _Executor.truth = _truth
-
 
 def _heap_view(clsname, field, kty, vty):
     def view(ex, st, self):
@@ -1112,17 +1057,13 @@ contract(
 
 
 # ---- SkipExportGlyphsIFilter.__call__ ----------------------------------------------------------------------------------------
-trusted("c13.super_i", "super() in a method of SkipExportGlyphsIFilter: self, with attribute lookup starting after that class in the MRO (BaseIFilter)")(
-    _super_view("SXISuper", "ufo2ft.filters.base:BaseIFilter.__call__#SXIFilter", "SXIFilter")
-)
-
 contract(
     "ufo2ft.filters.skipExportGlyphs:SkipExportGlyphsIFilter.__call__",
     name="SXIFilter",
     props=["C13"],
     params={"self": Ref("SXIFilter"), "fonts": List(Ref("SXFont")), "glyphSets": List(Ref("SXGlyphSet")), "instantiator": Opt(Ref("SXInstantiator"))},
     returns=Set(STR),
-    globals={"super": _Ref("c13.super_i"), "kwargs": {}},
+    globals={"kwargs": {}},
     requires=[
         "len(fonts) == len(glyphSets)", "len(fonts) > 0",
         "implies(instantiator is not None, len(instantiator.interpolated_layers) == len(glyphSets))",
